@@ -90,6 +90,20 @@ class RemotePoint(copyable.RemoteCopy, copyable.Copyable):
     typeToCopy = copytype = "verif.c01.pt"
 
 
+_late = [0]
+
+
+def late_copyable(longer=True):
+    """a Copyable + RemoteCopy class created -- and thereby registered in copyable.CopyableRegistry -- NOW; with longer=True its
+    type name is longer than every name registered so far"""
+    longest = max(len(k) for k in copyable.CopyableRegistry.keys())
+    _late[0] += 1
+    name = "verif.c01.late%d." % _late[0]
+    if longer:
+        name = name.ljust(longest + 1 + _late[0] % 3, "z")
+    return type("Late%d" % _late[0], (copyable.Copyable, copyable.RemoteCopy), {"typeToCopy": name, "copytype": name})
+
+
 KEEP = []      # objects created while a case is canonicalised / compared: pinned so that id() stays unique
 
 
@@ -470,6 +484,35 @@ def send_obj(b, obj):
         f = b.disconnectReason or b.violation
         return "send failed: %s: %s" % (f.type.__name__, str(f.value)[:120])
     return None
+
+
+OPENTYPE = {"list": [b"list"], "tuple": [b"tuple"], "set": [b"set"], "frozen": [b"immutable-set"], "dict": [b"dict"]}
+
+
+def write_term(b, t):
+    """emit the token stream of a canonical term with the Banana's own token writers (no slicers involved)"""
+    k = t[0]
+    if k in ("int", "float", "bytes"):
+        b.sendToken(t[1] if k != "float" else struct.unpack("!d", t[1])[0])
+        return
+    n = b.sendOpen()
+    if k == "cont":
+        idx = OPENTYPE.get(t[1]) or ([b"copyable", t[2]] if t[1] == "copy" else [t[2]])
+        for s_ in idx:
+            b.sendToken(s_)
+        for c in t[3]:
+            write_term(b, c)
+    elif k == "ref":
+        b.sendToken(b"reference"); b.sendToken(t[1])
+    elif k == "text":
+        b.sendToken(b"unicode"); b.sendToken(t[1])
+    elif k == "bool":
+        b.sendToken(b"boolean"); b.sendToken(1 if t[1] else 0)
+    elif k == "none":
+        b.sendToken(b"none")
+    elif k == "dec":
+        b.sendToken(b"decimal"); b.sendToken(t[1])
+    b.sendClose(n)
 
 
 # ------------------------------------------------------------------ the real receiver
